@@ -273,7 +273,7 @@ impl Prop for Faithful {
         if t.chance(1, 3) {
             cfg.max_mods = 1;
         }
-        cfg.max_items = 2 + t.below(10);
+        cfg.max_items = 2 + t.below(10 * crate::driver::scale());
         cfg.backends = false;
         cfg.static_vfuncs = true;
         let (prog, _, _) = gen_prog(t, cfg);
